@@ -58,6 +58,9 @@ def scan(ctx, envs, run, families, t3, nontrivial, what_t3, max_report=6):
                 reported_shapes.add(sid)
                 sid_, form, hx, ia, ib, fields = rtcat.split_line(a)
                 fields["_hex"] = hx
+                fields["_form"] = form
+                fields["_a"] = ia
+                fields["_b"] = ib
                 why = t3(sid, fields, x, aa)
                 rep = dict(describe(envs, sid), form=form, input_hex=hx, a=ia, b=ib, impl=a, model=b, oracle=aa)
                 if why:
@@ -69,6 +72,9 @@ def scan(ctx, envs, run, families, t3, nontrivial, what_t3, max_report=6):
         # fast path: decide T3 on the raw line where possible
         sid_, form, hx, ia, ib, fields = rtcat.split_line(a)
         fields["_hex"] = hx
+        fields["_form"] = form
+        fields["_a"] = ia
+        fields["_b"] = ib
         why = t3(sid, fields, x, aa)
         if why:
             t3_bad += 1
